@@ -37,6 +37,8 @@ pub fn random_bits(n: u32) -> Integer {
 
     let mut i = Integer::from(Integer::random_bits(n, &mut rand));
     i.set_bit(n - 1, true);
+    #[cfg(feature = "verif_hooks")]
+    crate::verif_hooks::on_integer("bits", &mut i);
     i
 }
 
@@ -49,6 +51,8 @@ pub fn random_number(n: Integer) -> Integer {
     let mut rand = RandState::new_custom(&mut binding);
 
     let number = n.random_below(&mut rand);
+    #[cfg(feature = "verif_hooks")]
+    let number = crate::verif_hooks::map_integer("below", number);
     number
 }
 
@@ -56,6 +60,8 @@ pub fn random_number(n: Integer) -> Integer {
 pub fn random_prime(n: u32) -> Integer {
     let r = random_bits(n);
     let prime = r.next_prime();
+    #[cfg(feature = "verif_hooks")]
+    let prime = crate::verif_hooks::map_integer("prime", prime);
     prime
 }
 
@@ -82,5 +88,10 @@ pub fn rand_int(a: Integer, b: Integer) -> Integer {
 
     let range = (&b - &a).complete() + Integer::from(1);
     // NOTE: return a random integer in the range [a, b], including both end points.
+    #[cfg(feature = "verif_hooks")]
+    if crate::verif_hooks::active() {
+        let v = Integer::from(&a + &Integer::from(range.random_below_ref(&mut rand)));
+        return crate::verif_hooks::map_integer("rand_int", v);
+    }
     return a + range.random_below(&mut rand);
 }
